@@ -57,10 +57,11 @@ def load_findings(prop: str) -> List[dict]:
 
 
 def sig_matches(entry_sig: List[str], sig: List[str]) -> bool:
-    """Exact match; an entry component '*' matches any single component."""
+    """Component-wise match; entry components may use shell wildcards ('*', 'key:int32:*')."""
     if len(entry_sig) != len(sig):
         return False
-    return all(e == "*" or e == s for e, s in zip(entry_sig, sig))
+    import fnmatch
+    return all(e == s or fnmatch.fnmatchcase(s, e) for e, s in zip(entry_sig, sig))
 
 
 def _entry_sigs(f: dict) -> List[List[str]]:
